@@ -229,9 +229,16 @@ func checkC10(ctx *Ctx) {
 		}
 	})
 	// tasks with two outputs: the audit file of *each* output lists all outputs of the task
-	for _, ch := range []Chain{{Inputs: []string{"a.txt", "b.txt"}, Levels: []Level{{TwoOut: true}, {}}, Max: 2}, {Inputs: []string{"a.txt"}, Levels: []Level{{}, {TwoOut: true}}, Max: 1}} {
+	// ... and outputs outside the working directory (paths with ../): the record names the declared paths
+	up := fmt.Sprintf("../c10up_%d/a.txt", os.Getpid())
+	for _, ch := range []Chain{{Inputs: []string{"a.txt", "b.txt"}, Levels: []Level{{TwoOut: true}, {}}, Max: 2}, {Inputs: []string{"a.txt"}, Levels: []Level{{}, {TwoOut: true}}, Max: 1},
+		{Inputs: []string{up}, Levels: []Level{{}, {TwoOut: true}}, Max: 2}} {
 		dir := newDir()
 		for p, content := range ch.sources() {
+			if strings.HasPrefix(p, "../") {
+				os.MkdirAll(filepath.Dir(filepath.Join(dir, p)), 0755)
+				defer os.RemoveAll(filepath.Dir(filepath.Join(dir, p)))
+			}
 			ioutil.WriteFile(filepath.Join(dir, p), []byte(content), 0644)
 		}
 		rr := RunWorkflow(ch.desc(), RunOpts{Dir: dir})
@@ -306,6 +313,29 @@ func runC11(ctx *Ctx, c c11Case) {
 		if r := RunWorkflow(d1, RunOpts{Dir: dir}); r.Exit != 0 {
 			ctx.Res.Disagree(Violation{What: "RunTo prefix failed: " + firstLine(r.Stderr), Witness: c})
 			return
+		}
+	case "truncate":
+		// a run that ended while an audit file was being rewritten: RunTo prefix, then the first level's record of
+		// one input is cut to 0 bytes. The resumed run may refuse the damaged record, it must not build on it
+		d1 := c.Chain.desc()
+		d1.RunTo, d1.RunToKind = []string{c.Arg}, "name"
+		if r := RunWorkflow(d1, RunOpts{Dir: dir}); r.Exit != 0 {
+			ctx.Res.Disagree(Violation{What: "RunTo prefix failed: " + firstLine(r.Stderr), Witness: c})
+			return
+		}
+		victim := c.Chain.pathAt(c.Chain.Inputs[0], 0)
+		os.Truncate(filepath.Join(dir, victim+".audit.json"), 0)
+		if r := RunWorkflow(c.Chain.desc(), RunOpts{Dir: dir}); r.Exit != 0 {
+			ctx.Res.Count("damaged-record-refused")
+			if !strings.Contains(strings.ToLower(r.Stderr), "unmarshal") {
+				ctx.Res.Violate(Violation{What: "resuming over a 0-byte audit file failed without naming the damaged record: " + firstLine(r.Stderr), Class: "c11.resume-failed", Witness: c})
+				return
+			}
+			os.Remove(filepath.Join(dir, victim))
+			os.Remove(filepath.Join(dir, victim+".audit.json"))
+			removeLeftovers(dir)
+		} else {
+			ctx.Res.Count("damaged-record-accepted")
 		}
 	case "crash":
 		RunWorkflow(d, RunOpts{Dir: dir, Env: []string{fmt.Sprintf("VERIF_CRASH_AT=%s#%d", c.Arg, c.N)}})
@@ -423,6 +453,8 @@ func checkC11(ctx *Ctx) {
 		}
 	}
 	cases = append(cases, c11Case{Chain: Chain{Inputs: []string{"a.txt", "b.txt"}, Levels: []Level{{}, {}}, Max: 2}, Mode: "inproc"})
+	tch := Chain{Inputs: []string{"a.txt", "b.txt"}, Levels: []Level{{}, {}, {}}, Max: 2}
+	cases = append(cases, c11Case{Chain: tch, Mode: "truncate", Arg: tch.procName(0)})
 	parallel(len(cases), 6, func(i int) {
 		if ctx.TimeLeft() {
 			runC11(ctx, cases[i])
